@@ -56,11 +56,15 @@ def run(pid, tier, seed):
         os.makedirs(d3)
         a, _ = gen.text_source("A", [(gen.BASE + i, 0) for i in range(5)], frac=0, cont=lambda i: [b"  c"] * (i % 2))
         b, _ = gen.text_source("B", [(gen.BASE + 1, 500_000_000), (gen.BASE + 7, 0)], frac=3, final_newline=False)
-        for n_, blob in (("a.log", a), ("b.log", b), ("junk.log", b"no timestamps here at all\n" * 4)):
+        # lines longer than the printer's internal buffer (2056 bytes), as head line and as continuation line
+        long_ = (b"2024-01-01T00:00:02+00:00 src=L idx=0 " + b"L" * 3000 + b"\n" +
+                 b"2024-01-01T00:00:04+00:00 src=L idx=1 short head\n" + b"  " + b"c" * 2500 + b"\n" +
+                 b"2024-01-01T00:00:06+00:00 src=L idx=2 " + b"e" * 5000)
+        for n_, blob in (("a.log", a), ("b.log", b), ("junk.log", b"no timestamps here at all\n" * 4), ("long.log", long_)):
             with open(os.path.join(d3, n_), "wb") as f:
                 f.write(blob)
-        sets.append((d3, ["a.log", "b.log", "junk.log"], []))
-        kinds_of = {0: {0: "text", 1: "text", 2: "record", 3: "event"}, 1: {0: "text", 1: "entry"}, 2: {0: "text", 1: "text", 2: "text"}}
+        sets.append((d3, ["a.log", "b.log", "junk.log", "long.log"], []))
+        kinds_of = {0: {0: "text", 1: "text", 2: "record", 3: "event"}, 1: {0: "text", 1: "entry"}, 2: {0: "text", 1: "text", 2: "text", 3: "text"}}
         optsets = [[], ["-n"], ["-p", "-w", "-u"], ["-n", "-u", "-d", "%H:%M:%S%.6f", "--prepend-separator=|"], ["--separator=--\\n"],
                    ["-n", "-l", "--separator=\\t", "--color", "always"], ["-w", "-n", "-z", "+05:30", "--separator=\\n"]]
         windows = {0: [[], ["-a", "2023-03-10T03:49:43.561000+00:00"], ["-a", "2023-03-10T03:49:43.560+00:00", "-b", "2023-03-10T03:49:43.566+00:00"]],
